@@ -307,6 +307,22 @@ Proof.
   destruct (last_some polls None); reflexivity.
 Qed.
 
+(* a SUCCESSFUL poll that answers with no chain config at all replaces the role map by the empty one (nobody is
+   designated for anything, no known chain, no fChain) — it is not treated like a failed poll *)
+Theorem hist_cfg_empty_poll O d f polls : Forall short_poll polls ->
+  hist_cfg O d f (polls ++ [Some []]) = cfg_of_home O d f [].
+Proof.
+  intros H. rewrite hist_cfg_spec.
+  - unfold spec_cfg, spec_home. unfold hpoll in *. rewrite (last_some_app polls None (Some [])). reflexivity.
+  - apply Forall_app. split; [exact H|]. constructor; [|constructor]. unfold short_poll, home_page_size. cbn [length]. lia.
+Qed.
+
+Theorem empty_cfg_rejects_commit O d f retry o ob : validate_commit (cfg_of_home O d f []) retry o ob = false.
+Proof.
+  rewrite validate_commit_factor. unfold dest_configured, cfg_of_home, chains_of_home. cbn [c_chains map alookup].
+  now rewrite andb_false_r.
+Qed.
+
 (* non-vacuity / worked history: oracle 2 reads source chain 5 and the destination 9; chain 5 is then taken away from it
    (it keeps 9), a poll fails, chain 5 is given back.  Its merkle root for chain 5 is accepted, rejected, rejected again
    after the failed poll (the last good map stays), accepted. *)
